@@ -39,10 +39,14 @@ def run(prop: str, tier: str, repo_root: str, evidence_dir=None, selftest=True) 
         rep.count("functions", len(repo.pkg_funcs()))
         mod.check(repo, rep, tier)
         st = None
-        if tier == "thorough" and selftest:
+        if tier == "thorough" and selftest and (rep.has_fresh_violation() or rep.undecided_msgs):
+            # the self-test measures the checker against a tree on which the rules hold;
+            # on a violating tree the verdict is the violation itself
+            st = {"skipped_because": "the analysed tree already violates a rule / is undecided; self-test not meaningful"}
+        elif tier == "thorough" and selftest:
             from selftest.corpus import run_selftest
 
-            st = run_selftest(prop)
+            st = run_selftest(prop, repo=repo_root)
             if st.get("failed"):
                 for f in st["failed"]:
                     rep.undecided("SELFTEST", f)
